@@ -911,6 +911,8 @@ RAW_FAULTS = [
     ("x0 = choose(\"\u00e9\u00e9\u00e9\u00e9\u00e9\")", {0}), ("x0 = choose(\"\U0001d11e\u4e2d\")", {0}), ("x0 = choose(\"\")", {0}), ("x0 = choose([])", {0}), ("x0 = choose({})", {0}),
     ("x0 = shuffle(\"\u00e9\u4e2dx\")", {0}), ("x0 = shuffle(5)", {0}), ("x0 = random_range(5, 5)", {0}), ("x0 = random_range(0-9223372036854775807-1, 9223372036854775807)", {0}),
     ("x0 = random_bytes(0-1)", {0}), ("x0 = random_bytes(0)", {0}), ("x0 = random(1)", {0}),
+    ("x0 = len(1 til 5 by 0)", {0}), ("x0 = only(1 til 5 by 0)", {0}), ("x0 = if (1 til 5 by 0) 1 else 2", {0}), ("x0 = not (5 til 1 by 0)", {0}), ("x0, x1 = 1 til 5 by 0", {0, 1}),
+    ("x0 = len(to(1, 5, 0))", {0}), ("x0 = 3 in (5 til 1 by 0)", {0}), ("x0 = len(5 til 1 by (0-1)) + len(1 til 5 by (0-1))", {0}), ("while (5 til 1 by 0) x0 = 1", {0}),
     ("x0 %= 0", {0}), ("x0 %%= 0", {0}), ("x0 /= 0", {0}), ("x0 gcd= null", {0}), ("x0 til= null", {0}), ("x0 by= 0", {0}), ("x0 = 1 to null", {0}),
 ]
 
@@ -1185,13 +1187,34 @@ def report_inject(ctx, bad):
 
 
 # ----------------------------------------------------------------------------- index / slice bounds on every stream constructor
-SB_SETUP = SETUP + [
+SB_SETUP0 = SETUP + [
     "c14_index := \\s, i -> s[i]", "c14_lo := \\s, a -> s[a:]", "c14_hi := \\s, b -> s[:b]", "c14_slice := \\s, a, b -> s[a:b]",
     "c14_sec_index := \\s, i -> (_[i])(s)", "c14_sec_slice := \\s, a, b -> (_[a:b])(s)",
 ]
+SB_OBS = {     # observers applied to every constructor (one argument)
+    "c14_len": "\\s -> len(s)", "c14_only": "\\s -> only(s)", "c14_truth": "\\s -> if (s) 1 else 0", "c14_not": "\\s -> not s",
+    "c14_unpack2": "\\s -> (p, q := s; p)", "c14_unpack_splat": "\\s -> (p, ...q := s; p)", "c14_unpack1": "\\s -> (p, := s; p)",
+    "c14_in": "\\s -> 1 in s", "c14_contains": "\\s -> s contains null", "c14_last": "\\s -> last(s)", "c14_first": "\\s -> first(s)",
+    "c14_reverse": "\\s -> reverse(s)", "c14_list": "\\s -> list(s)", "c14_for": "\\s -> (for (v <- s) break)", "c14_eq": "\\s -> s == s",
+    "c14_and": "\\s -> s and 1", "c14_or": "\\s -> s or 1", "c14_while": "\\s -> (n := 0; while (s and n < 2) n += 1; n)", "c14_switch": "\\s -> switch (s) case [] -> 0 case [a] -> 1 case _ -> 2",
+    "c14_sum": "\\s -> sum(s)", "c14_max": "\\s -> max(s)", "c14_sort": "\\s -> sort(s)", "c14_set": "\\s -> set(s)", "c14_str": "\\s -> str(s take 3)", "c14_tail": "\\s -> tail(s)",
+    "c14_butlast": "\\s -> butlast(s)", "c14_uncons": "\\s -> uncons(s)", "c14_unsnoc": "\\s -> unsnoc(s)", "c14_lenfilter": "\\s -> len(s lazy_map (+1))", "c14_zip": "\\s -> len(s zip [1,2])",
+}
+SB_SETUP = SB_SETUP0 + [f"{k} := {v}" for k, v in SB_OBS.items()]
 SB_INF_FAST = ["repeat(7)", "cycle([1,2])"]                      # have their own index / slice code
-SB_INF_SLOW = ["(cycle([1,2,3]) drop 1)", "iota(0)", "iterate(0, \\x -> x+1)", "(iota(0) lazy_map \\x -> x)"]
-SB_FINITE = ["(1 to 3)", "(0 til 0)", "(5 to 1 by (0-2))", "stream([1,2,3])", "((1 to 3) lazy_map (+1))", "((1 to 5) lazy_filter odd)",
+SB_INF_SLOW = ["(cycle([1,2,3]) drop 1)", "iota(0)", "iterate(0, \\x -> x+1)", "(iota(0) lazy_map \\x -> x)",
+               # a range with step exactly 0 that is not empty repeats its start for ever
+               "(1 til 5 by 0)"]
+# more zero-step ranges: seen by the observers only (their index / slice behaviour is that of the one above)
+SB_INF_OBS_ONLY = ["til(1, 5, 0)", "to(1, 5, 0)", "(5 to 5 by 0)", "(1 to 5 by (18446744073709551616-18446744073709551616))",
+                   "((0-9223372036854775807-1) til 9223372036854775807 by 0)", "(18446744073709551616 til 18446744073709551619 by 0)"]
+SB_FINITE = ["(5 til 1 by 0)", "(5 til 5 by 0)", "to(5, 1, 0)", "(9223372036854775807 til (0-9223372036854775807-1) by 0)",      # zero step, empty
+             "(5 til 1 by (0-1))", "(1 til 5 by (0-1))", "(5 to 1 by (0-1))", "(1 to 5 by (0-2))", "to(5, 1, (0-2))", "(5 til 1 by (0-9223372036854775807-1))",
+             "(5 til 1 by (0-18446744073709551616))", "(1 til 5 by 18446744073709551616)", "(1 til 5 by 9223372036854775807)",
+             "(18446744073709551616 til 18446744073709551619)", "(18446744073709551619 til 18446744073709551616 by (0-1))",
+             "((0-9223372036854775807-1) to (0-9223372036854775807))", "(9223372036854775806 to 9223372036854775807)", "(9223372036854775807 to 9223372036854775806 by (0-1))",
+             "((0-9223372036854775807-1) to 9223372036854775807 by 9223372036854775807)", "((18446744073709551616-18446744073709551615) til (18446744073709551616-18446744073709551612))",
+             "(1 to 3)", "(0 til 0)", "(5 to 1 by (0-2))", "stream([1,2,3])", "((1 to 3) lazy_map (+1))", "((1 to 5) lazy_filter odd)",
              "permutations([1,2])", "combinations([1,2,3], 2)", "subsequences([1,2])", "([1,2] ^^ 2)", '("a" to "c")', '("\\u{d7ff}" to "\\u{e000}")',
              "[1,2,3]", '"abc"', "V(1,2,3)", "B[1,2,3]", "(1 to 3 zip [4,5,6])", "enumerate([7,8])"]
 SB_BOUNDS = [0, 1, -1, 2, -2, 3, -3, 4, 2 ** 31, -2 ** 31, 2 ** 63 - 2, 2 ** 63 - 1, -2 ** 63 + 1, -2 ** 63, 2 ** 63, -2 ** 63 - 1, 2 ** 64]
@@ -1204,8 +1227,9 @@ SB_FNS3 = ["c14_slice", "c14_sec_slice"]
 def run_stream_bounds(ctx):
     """s[i], s[a:], s[:b], s[a:b] (expression and section forms) and the index builtins, for every stream constructor and
     the machine-word boundary bounds"""
-    streams = SB_INF_FAST + SB_INF_SLOW + SB_FINITE
-    ninf = len(SB_INF_FAST) + len(SB_INF_SLOW)
+    streams = SB_INF_FAST + SB_INF_SLOW + SB_INF_OBS_ONLY + SB_FINITE
+    ninf = len(SB_INF_FAST) + len(SB_INF_SLOW) + len(SB_INF_OBS_ONLY)
+    full = [si for si, src in enumerate(streams) if src not in SB_INF_OBS_ONLY]
     nums = sorted(set(SB_BOUNDS))
     pool = streams + [str(n) if n >= 0 else f"(0-{-n})" for n in nums]
     at = {n: len(streams) + k for k, n in enumerate(nums)}
@@ -1213,13 +1237,16 @@ def run_stream_bounds(ctx):
     cases = []
 
     def case(fn, tuples):
-        c = sw.case(fn, tuples=tuples, limit_ms=300, pool=pool)
+        c = sw.case(fn, tuples=tuples, limit_ms=200, pool=pool)
         c["setup"] = SB_SETUP
         return c
     for fn in SB_FNS2:
-        cases.append(case(fn, [[si, at[b]] for si in range(len(streams)) for b in SB_BOUNDS]))
+        cases.append(case(fn, [[si, at[b]] for si in full for b in SB_BOUNDS]))
+    for fn in SB_OBS:
+        cases.append(case(fn, [[si] for si in range(len(streams))]))
     for fn in SB_FNS3:
-        for si, src in enumerate(streams):
+        for si in full:
+            src = streams[si]
             bs = SB_BOUNDS_PAIR_SLOW if src in SB_INF_SLOW else SB_BOUNDS_PAIR
             cases.append(case(fn, [[si, at[a], at[b]] for a in bs for b in bs]))
     sw.run(cases)
@@ -1235,15 +1262,16 @@ def run_stream_bounds(ctx):
     if suspects:
         sw2 = Sweep(ctx)
         cs = []
-        for f in suspects[:30]:
-            c = sw2.case(f["fn"], tuples=[f["t"]], limit_ms=20000, pool=pool)
+        for f in suspects[:12]:
+            c = sw2.case(f["fn"], tuples=[f["t"]], limit_ms=5000, pool=pool)
             c["setup"] = SB_SETUP
             cs.append(c)
-        sw2.run(cs, workers=4)
+        sw2.run(cs, workers=12)
         still = {(g["fn"], tuple(g["t"])) for g in sw2.fail}
-        viol = [f for f in viol if f["status"] != "hang" or (f["fn"], tuple(f["t"])) in still]
+        checked = {(f["fn"], tuple(f["t"])) for f in suspects[:12]}
+        viol = [f for f in viol if f["status"] != "hang" or (f["fn"], tuple(f["t"])) in still or (f["fn"], tuple(f["t"])) not in checked]
     stats = {"calls": sw.calls, "outcomes": dict(sorted(sw.counts.items())), "streams": streams, "bounds": [str(b) for b in SB_BOUNDS],
-             "functions": SB_FNS2 + SB_FNS3, "tolerated_nonterminating_input": len(tol), "violations": len(viol)}
+             "functions": SB_FNS2 + SB_FNS3, "observers": SB_OBS, "tolerated_nonterminating_input": len(tol), "violations": len(viol)}
     bad = []
     seen = set()
     for f in viol:
@@ -1251,7 +1279,7 @@ def run_stream_bounds(ctx):
         if key in seen:
             continue
         seen.add(key)
-        bad.append(("property", dict(shape="stream-bounds", what="indexing / slicing a stream at a boundary bound did not end in a value or a catchable error: " + f["status"],
+        bad.append(("property", dict(shape="stream-bounds", what="indexing / slicing / observing (len, truthiness, unpacking, ...) a stream did not end in a value or a catchable error: " + f["status"],
                                      call=f["call"], status=f["status"], msg=f["msg"], panic_location=f["loc"],
                                      same_site_calls=[g["call"] for g in viol if (g["status"], g["loc"] or g["msg"][:50]) == key][:10])))
     return stats, bad
